@@ -44,7 +44,7 @@ MANIFEST = dict(
          'side/depth, mipmap) read() visits gets exactly the bytes save() produced for it, for any object version and written version '
          '(save(version=)), cubemap or volume; every fitting file can be encoded. Particle sheets: read_sheet(make_sheet qs) = qs for '
          'both sheet versions (version 0 keeps the first coordinate of a frame only). The premises are regenerated from '
-         'vtf.py/_py_vtf_readwrite.py on every run and checked in the kernel (250 obligations); the generated codecs are compared with '
+         'vtf.py/_py_vtf_readwrite.py on every run and checked in the kernel (253 obligations); the generated codecs are compared with '
          'the Python codecs, the generated Frame effect tables are run by Coq on symbolic pixels against histories of operations on the '
          'implementation, implementation-saved files are decoded by the Coq container model and model-encoded files (also files that '
          'declare all mipmap levels, as other tools write them) are read by VTF.read; whole files are saved and read back over all '
@@ -945,6 +945,7 @@ def access_obligations(info: dict) -> dict[str, str]:
         obs[f'whole_array_{_slug(name)}_only_between_frames_of_equal_width_and_height'] = f'copy_guard_ok (snd (nth {i} gen_copy_guards (EmptyString, nil)))'
     for i, (name, _r) in enumerate(info.get('keys', [])):
         obs[f'frame_table_key_in_{_slug(name)}_is_frame_side_mipmap'] = f'key_ok (snd (nth {i} gen_key_sites (EmptyString, nil)))'
+    obs['clear_mipmaps_erases_exactly_the_levels_with_index_above_after'] = 'clear_after_ok gen_clear_after'
     obs['every_frame_table_key_is_frame_side_mipmap'] = '(forallb (fun k => key_ok (snd k)) gen_key_sites && negb (Nat.eqb (List.length gen_key_sites) 0))%bool'
     obs['every_pixel_path_of_the_census_has_the_canonical_address_map'] = \
         '(forallb path_ok gen_paths && negb (Nat.eqb (List.length gen_paths) 0))%bool'
@@ -1731,7 +1732,7 @@ def gen_history(rng: random.Random, n: int) -> list[list]:
     ops: list[list] = []
     k = 0
     for _ in range(rng.choice([0, 1, 1, 2, 2, 3, 4, 6])):
-        kind = rng.choice(['load', 'clear', 'clear', 'fill', 'copy', 'set', 'rescale', 'compute', 'exit'])
+        kind = rng.choice(['load', 'clear', 'clear', 'fill', 'copy', 'set', 'rescale', 'compute', 'exit', 'clear_after'])
         m = rng.randrange(n)
         if kind == 'rescale':
             m = rng.randrange(1, n) if n > 1 else 0
@@ -1783,6 +1784,9 @@ def run_history_impl(base: bytes, n: int, ops: list[list]) -> list[bytes]:
         if kind == 'exit':
             v.__exit__(None, None, None)
             continue
+        if kind == 'clear_after':           # VTF.clear_mipmaps(after=a): the levels BELOW level a (index > a) are cleared, level a is kept
+            v.clear_mipmaps(after=op[1])
+            continue
         fr = v.get(mipmap=op[1])
         if kind == 'load':
             fr.load()
@@ -1804,6 +1808,17 @@ def run_history_impl(base: bytes, n: int, ops: list[list]) -> list[bytes]:
     return [bytes(v2.get(mipmap=m)._data) for m in range(n)]
 
 
+def expand_history(ops: list[list], n: int) -> list[list]:
+    """clear_mipmaps(after=a) is, for the levels of one frame, clear() of every level with index > a"""
+    out: list[list] = []
+    for op in ops:
+        if op[0] == 'clear_after':
+            out += [['clear', m] for m in range(op[1] + 1, n)]
+        else:
+            out.append(op)
+    return out
+
+
 def spec_history(levels: list[bytes], ops: list[list]) -> list[tuple[str, bytes]]:
     """The property restated directly (independent of the Coq model and of the source): per level (why, pixels) that
     save() must write.  A level keeps the file's pixels until something writes to it; reading never changes anything;
@@ -1813,6 +1828,7 @@ def spec_history(levels: list[bytes], ops: list[list]) -> list[tuple[str, bytes]
     property, but an explicit rescale_from() of such a level and __exit__ behave differently afterwards: from the first
     level where that matters on, the history is not judged ('unjudged')."""
     n = len(levels)
+    ops = expand_history(ops, n)
     dims = [(HIST_W >> m, HIST_H >> m) for m in range(n)]
     blank = [bytes((0, 0, 0, 255)) * (w * h) for w, h in dims]
     src = [True] * n
@@ -1939,7 +1955,8 @@ def corr_frames(ck: Ck, frame_ok: bool) -> None:
     dims = [(HIST_W >> m, HIST_H >> m) for m in range(n)]
     fixed = [[], [['clear', n - 1]], [['clear', 1]], [['compute']], [['compute'], ['clear', n - 1]], [['rescale', 1]],
              [['load', 1], ['clear', 2 % n]], [['set', 1]], [['exit']], [['load', 0], ['exit'], ['clear', 1]],
-             [['copy', 1, 0, 7], ['clear', 2 % n]], [['fill', 0, 0, 9], ['clear', 1]], [['clear', 0]]]
+             [['copy', 1, 0, 7], ['clear', 2 % n]], [['fill', 0, 0, 9], ['clear', 1]], [['clear', 0]],
+             [['clear_after', 0]], [['clear_after', 1]], [['load', 1], ['clear_after', 1]], [['clear_after', n - 1]]]
     cases = fixed + [gen_history(ck.rng, n) for _ in range(ck.budget(140, 480))]
     found: dict[str, tuple[list, str]] = {}
     impl_out: list[list[bytes] | None] = []
@@ -1970,7 +1987,7 @@ def corr_frames(ck: Ck, frame_ok: bool) -> None:
     ck.sample({'frame_history': cases[len(fixed)], 'levels': n, 'must_be_written_from': [w for w, _ in spec_history(levels, cases[len(fixed)])]})
     if not frame_ok:
         return
-    vals = ck.coq_eval(IMPORTS_FRAME, [f'hist {n} {_coq_ops(ops)}' for ops in cases], name='framehist', preamble=PRE_FRAME, timeout=600)
+    vals = ck.coq_eval(IMPORTS_FRAME, [f'hist {n} {_coq_ops(expand_history(ops, n))}' for ops in cases], name='framehist', preamble=PRE_FRAME, timeout=600)
     if vals is None:
         ck.obligation('correspondence:frame-histories', False, 'the generated effect tables could not be run in Coq')
         ck.tie_broken.append('correspondence frame histories: Coq evaluation failed')
@@ -2042,7 +2059,7 @@ def run(ck: Ck) -> None:
                'bounds: all (x,y) in [-3, w+3) x [-3, h+3) for six frame shapes, non-trivial = outside the frame. '
                'filters: five filter modes on six shapes. '
                'frame histories: a 32x16 RGBA8888 file with unrelated random levels is read lazily, 0-6 random operations '
-               '(load/clear/fill/copy_from/__setitem__/rescale_from/compute_mipmaps/__exit__ on random levels) plus 13 fixed histories, '
+               '(load/clear/fill/copy_from/__setitem__/rescale_from/compute_mipmaps/__exit__/clear_mipmaps(after=) on random levels) plus 17 fixed histories, '
                'then save; distinct by the operation list, non-trivial = at least one operation. '
                'container: small sizes, versions 7.2-7.5, cubemaps, depth, frames, 0-4 resources, sheets; distinct by configuration. '
                'cubemap save(version=) overrides: all 12 ordered pairs of versions, 1-3 frames, also on a lazily read object. '
@@ -2190,6 +2207,7 @@ def run(ck: Ck) -> None:
         if k.startswith(('frame-history-', 'lazy-resave-')):
             ck.explain('instance:frame_')
             ck.explain('instance:compute_mipmaps_')
+            ck.explain('instance:clear_mipmaps_')
             ck.explain('instance:rescale_from_')
             ck.explain('instance:save_')
             ck.explain('correspondence:frame-histories')
